@@ -78,10 +78,10 @@ def gen(rng, tier):
             perms = rng.sample(perms, 6 if tier == "quick" else 24)
         # every completion order of the slicing goroutines (imposed through the gate)
         for p in perms:
-            cases.append({"Text": base, "kind": "schedule", "group": g, "role": "schedule", "Order": ",".join(p), "Weight": w, "Solve": True, "Assemble": True, "Error": ERR})
+            cases.append({"Text": base, "kind": "schedule", "group": g, "role": "schedule", "Order": ",".join(p), "Isolate": True, "Weight": w, "Solve": True, "Assemble": True, "Error": ERR})
         # free scheduling, repeated
         for k in range(2):
-            cases.append({"Text": base, "kind": "repeat", "group": g, "role": "repeat", "Weight": w, "Solve": True, "Assemble": True, "Error": ERR})
+            cases.append({"Text": base, "kind": "repeat", "group": g, "role": "repeat", "Isolate": k == 1, "Weight": w, "Solve": True, "Assemble": True, "Error": ERR})
         # the same structure: bars / lines / sections reordered, comments and padding, renamed
         t = s.copy()
         rng.shuffle(t.bars)
@@ -167,7 +167,7 @@ SPEC = {
     "corpus_filter": lambda c: False,
     "stages": [("C", stageC, S.stageC_v, 6, 60)],
     "nontrivial": lambda c, o: c.get("role") in ("schedule", "reordered", "renamed") and not o.get("ParsePanic"),
-    "rule": "groups: a structure of <= 5 bars (every fourth with two coincident bars: ties in the sort by position; every fourth twin bars whose load positions agree to six decimals without being equal) and, against it: every completion order of the slicing goroutines imposed through the verif gate "
+    "rule": "groups: a structure of <= 5 bars (every fourth with two coincident bars: ties in the sort by position; every fourth twin bars whose load positions agree to six decimals without being equal) and, against it: every completion order of the slicing goroutines imposed through the verif gate, each in a process of its own "
             "(all N! for N <= 3, 6 / 24 sampled beyond), two free-scheduling repeats, the same definition with bars, load lines, node lines and sections permuted plus comments / padding, and a consistent renaming "
             "of nodes, bars, materials and sections. Oracle: identical sliced bars (positions and loads) and the same partition of unknowns / count for every order; solved iff the reference solves; displacements, "
             "diagrams and reactions equal at every position within the tolerance from both residuals. Stage C: the numbers of every imposed order equal the Coq numbering model run on the implementation's bar order.",
